@@ -25,6 +25,9 @@ def gen(ctx):
     for n, w in enumerate(sk):
         for r in modes(n):
             cs.add('req', w, r, 1024, '-')
+    for w in H.token_sequences(H.spec_tokens('MC_RequestHead'), 4 if ctx.thorough else 3):   # the bounded domain of MC_RequestHead
+        for r in (0, 1):
+            cs.add('req', w + b'\r\n', r, 1024, '-')
     n_skel = len(cs)
     # (ii) single-byte mutations of valid lines: all 256 values (replace; thorough: also insert) on 3 (thorough: 7) bases,
     #      class representatives (replace, insert, delete) on all
@@ -47,11 +50,11 @@ def gen(ctx):
             cs.add('req', b'GET /' + b'a' * (u - 1) + b'\r\n', r, BIG, '-')
     # (iv) seeded random mutants of the bases and of skeleton members
     pool = BASES + rnd.sample(sk, min(len(sk), 400))
-    for n in range(40000 if ctx.thorough else 6000):
+    for n in range(20000 if ctx.thorough else 6000):
         w = H.random_mutant(rnd, rnd.choice(pool))
         for r in modes(n):
             cs.add('req', w, r, 1024, '-')
-    return cs, {'skeleton': n_skel, 'byte_mutations': n_mut, 'limits_and_random': len(cs) - n_skel - n_mut, 'skeleton_k': k}
+    return cs, {'skeleton_and_mc_token_domain': n_skel, 'byte_mutations': n_mut, 'limits_and_random': len(cs) - n_skel - n_mut, 'skeleton_k': k}
 
 
 VERSION_TOKEN = re.compile(rb'HTTP/(\d+)\.(\d+)\r*$')
@@ -112,7 +115,7 @@ def run(ctx):
     ctx.cov['ub_reports'] = sum(1 for o in outs if o['ub'])
     for o in (outs[0], outs[len(outs) // 3], outs[len(outs) // 2], outs[-1]):
         ctx.sample({'input': bytes(o['in'])[:100].decode('latin-1'), 'relaxed': o['relaxed'], 'outcome': H.tuple_text(o['tuples'][o['one']])})
-    ctx.cov['rule'] = ('request skeleton (garbage, method, delimiter, target, delimiter, version, CR, LF, header block) with at most k deviating slots; '
+    ctx.cov['rule'] = ('request skeleton (garbage, method, delimiter, target, delimiter, version, CR, LF, header block) with at most k deviating slots; every token sequence of the MC_RequestHead domain up to 3 (thorough: 4) tokens; '
                        'single-byte replace/insert/delete over valid lines (all 256 values on part of the bases, class representatives on all); method and '
                        'URI length limits; seeded random mutants; each in strict and relaxed mode (-1 on a quarter). Cases are de-duplicated; '
                        'non-trivial = the input contains a complete first line (an LF).')
